@@ -156,6 +156,10 @@ func (s *c07Scoper) item(it c07Item, depth int) {
 		if !s.visible("x") {
 			s.rej("use of undefined x")
 		}
+	case "Ds", "Dvs", "Dms", "forrs", "forvs", "for3s":
+		// the defining statement uses the very name it introduces: if the name is visible already this is a
+		// redefinition, if it is not this is a use before the definition - rejected either way
+		s.rej("the defining statement uses the name it defines")
 	case "brk":
 		if s.loopDepth == 0 {
 			if s.swDepth > 0 {
@@ -287,6 +291,7 @@ func c07Judge(items []c07Item) (c07Verdict, string) {
 // ---------------------------------------------------------------- skeleton -> program
 
 type c07Builder struct {
+	needStr bool
 	needTwo bool
 	marker  int
 	funcs   map[string]string
@@ -315,6 +320,23 @@ func (b *c07Builder) item(it c07Item, depth int) []Stmt {
 		return []Stmt{Print{Args: []Expr{StrLit{V: fmt.Sprintf("u%d", id)}, Var{"x"}}}}
 	case "A":
 		return []Stmt{Assign{Names: []string{"x"}, Vals: []Expr{IntLit{id + 100}}}}
+	case "Ds":
+		return []Stmt{Define{Names: []string{"x"}, Form: DefShort, Vals: []Expr{Binary{Op: "+", L: Var{"x"}, R: IntLit{id}}}}}
+	case "Dvs":
+		return []Stmt{Define{Names: []string{"x"}, Form: DefVarInit, Vals: []Expr{Binary{Op: "+", L: Var{"x"}, R: IntLit{id}}}}}
+	case "Dms":
+		y := fmt.Sprintf("y%d", depth)
+		return []Stmt{Define{Names: []string{"x", y}, Form: DefShort, Vals: []Expr{Var{y}, IntLit{id}}}}
+	case "forrs": // the range expression mentions the loop's own index
+		b.needStr = true
+		i := fmt.Sprintf("i%d", depth)
+		return []Stmt{ForRange{I: i, V: "x", X: Substr{X: Var{"sv"}, Lo: Var{i}}, Body: append([]Stmt{b.mark()}, b.block(it.kids[0], depth+1)...)}}
+	case "forvs": // ... the loop's own value variable
+		b.needStr = true
+		return []Stmt{ForRange{I: fmt.Sprintf("i%d", depth), V: "x", X: Substr{X: Var{"sv"}, Lo: Len{X: Var{"x"}}}, Body: append([]Stmt{b.mark()}, b.block(it.kids[0], depth+1)...)}}
+	case "for3s": // the init value mentions the variable it defines
+		return []Stmt{For{Init: Define{Names: []string{"x"}, Form: DefShort, Vals: []Expr{Binary{Op: "-", L: Var{"x"}, R: Var{"x"}}}}, Cond: Binary{Op: "<", L: Var{"x"}, R: IntLit{1}}, Post: IncDec{Name: "x", Inc: true},
+			Body: append([]Stmt{b.mark()}, b.block(it.kids[0], depth+1)...)}}
 	case "brk":
 		return []Stmt{Break{}}
 	case "cont":
@@ -397,6 +419,9 @@ func c07Prog(items []c07Item) *Prog {
 	b := &c07Builder{funcs: map[string]string{}}
 	st := b.block(items, 0)
 	st = append(st, Print{Args: []Expr{StrLit{V: "end"}}})
+	if b.needStr {
+		st = append([]Stmt{Define{Names: []string{"sv"}, Form: DefShort, Vals: []Expr{StrLit{V: "ab"}}}}, st...)
+	}
 	if b.needTwo {
 		st = append([]Stmt{FuncDef{Name: "two", Rets: []Type{TInt, TInt}, Body: []Stmt{Return{Vals: []Expr{IntLit{0}, IntLit{5}}}}}}, st...)
 	}
@@ -524,6 +549,36 @@ func C07() int {
 	add("n2", c07Leaves, c07Containers, 2, 3)
 	add("n3", c07Leaves, c07Containers, 3, 3)
 	add("n4_reduced", redL, redC, 4, 3)
+	{ // defining statements that use the name they define (as leaf and as loop header), in every skeleton of up to
+		// two items that contains one of them
+		selfL := append(append([]string{}, c07Leaves...), "Ds", "Dvs", "Dms")
+		selfC := append(append([]string{}, c07Containers...), "forrs", "forvs", "for3s")
+		isSelf := map[string]bool{"Ds": true, "Dvs": true, "Dms": true, "forrs": true, "forvs": true, "for3s": true}
+		var has func(items []c07Item) bool
+		has = func(items []c07Item) bool {
+			for _, it := range items {
+				if isSelf[it.kind] {
+					return true
+				}
+				for _, k := range it.kids {
+					if has(k) {
+						return true
+					}
+				}
+			}
+			return false
+		}
+		n := 0
+		for _, k := range []int{1, 2} {
+			for _, sq := range c07Enum(selfL, selfC, k, 3, 3, map[[3]int][][]c07Item{}) {
+				if has(sq) {
+					all = append(all, sq)
+					n++
+				}
+			}
+		}
+		r.Set("skeletons_self_reference", n)
+	}
 	if r.Thorough() {
 		add("n4_full", c07Leaves, c07Containers, 4, 3)
 		add("n5_reduced", redL, redC, 5, 3)
